@@ -1108,6 +1108,21 @@ class Req:
             ok = ok and good
         return (ok and n >= 3, "all %d digit-function call sites take i from 0..p or 0..8n/w" % n)
 
+    def closure_item_source(self, cf):
+        """Expression (in the enclosing function) of the iterator a closure is handed to together with (map / for_each / ...)."""
+        parent = self.F.fns.get(cf.j.get("parent_fn")) or self.F.fns.get(cf.path.rsplit("::{closure", 1)[0])
+        if parent is None:
+            return None
+        ex = expr.Expr(self.F, parent)
+        for b, t in parent.calls():
+            if parent.blocks[b]["cleanup"] or len(t["args"]) < 2:
+                continue
+            for a in t["args"][1:]:
+                p = core.op_place(a)
+                if p is not None and not p["proj"] and parent.locals[p["local"]]["ty"].get("k") == "closure" and parent.locals[p["local"]]["ty"].get("path") == cf.path:
+                    return ex.of_operand(t["args"][0])
+        return None
+
     def r_ots_key_index_callers(self):
         idx = [f for f in self.F.fns.values() if f.j.get("impl", {}).get("trait") == "core::ops::index::Index" and f.j["impl"]["self_ty"].get("path") == "util::ArrayVecZeroize"]
         if len(idx) != 1:
@@ -1122,6 +1137,10 @@ class Req:
             be, ie = ex.of_operand(t["args"][0]), ex.of_operand(t["args"][1])
             n += 1
             rng = [x for x in expr.walk(ie) if x[0] == "adt" and x[1] == "core::ops::range::Range"]
+            if not rng and "{closure" in f.path and any(x[0] == "arg" and x[1] >= 2 for x in expr.walk(ie)):
+                # the index is the item parameter of a closure: the range is the iterator the closure is mapped over
+                src = self.closure_item_source(f)
+                rng = [x for x in expr.walk(src) if x[0] == "adt" and x[1] == "core::ops::range::Range"] if src is not None else []
             ok = ok and bool(rng) and expr.has_field(rng[0][3][1], "hash_chain_count") and expr.has_field(be, "key")
         return (ok and n >= 1, "%d uses of the one-time key vector index with i in 0..p" % n)
 
